@@ -289,4 +289,15 @@ theorem findAllOrfsRec_overlap_crossing (rec : Seq) (genes : List Lookup.Gene) (
         · exact piece1 pre hpre q.lo q.hi (by omega) (by omega) g0 hg0 gp hgp
         · exact piece2 post hpost q.lo q.hi (by omega) (by omega) g0 hg0 gp hgp
 
+/-- a location made of pieces of another one overlaps genes no more than that one does -/
+theorem locOverlapOk_mono (gs : List Loc) (pad : Int) (l r : Loc)
+    (hin : ∀ q ∈ r.parts, ∃ p ∈ l.parts, p.lo ≤ q.lo ∧ q.lo < q.hi ∧ q.hi ≤ p.hi ∧ q.strand = p.strand)
+    (h : locOverlapOk gs pad l = true) : locOverlapOk gs pad r = true := by
+  simp only [locOverlapOk, List.all_eq_true, decide_eq_true_eq] at h ⊢
+  intro q hq gl hgl gp hgp
+  obtain ⟨p, hp, h1, h2, h3, _⟩ := hin q hq
+  have := h p hp gl hgl gp hgp
+  simp only [exonOverlap] at this ⊢
+  omega
+
 end ASV.Orf
